@@ -30,6 +30,9 @@ import zlib
 
 from harness import fakenet
 from drivers.crawl_exec import CrawlRun, Site, SiteServer, _http
+import re
+
+PROXY_IP = '10.0.0.9'
 
 # ------------------------------------------------------------------ exception kinds
 # name -> (class getter, instance factory); order = most specific first for classification
@@ -419,10 +422,25 @@ class HRun(CrawlRun):
         n, ep, u, host, port, path, kind = self.pending[idx]
         d = self.site.lookup(host, port, path) or {}
         CrawlRun.answer(self, idx)
+        if id(ep) in getattr(self, 'proxy_eps', ()):
+            self.proxy_idle.append(ep)      # closed by the proxy's idle timeout: see env_step
         if d.get('fail') is not None:
             ep.fail(make_exc(d['fail']) if isinstance(d['fail'], str) else d['fail'])
             if self.fault is not None:
                 self.fault_fired += 1
+
+    proxy_idle = ()
+
+    def env_step(self):
+        if CrawlRun.env_step(self):
+            return True
+        # nothing to answer and the client is not asking (it sleeps: --wait): the proxy's idle timeout fires
+        if self.proxy_idle:
+            ep = self.proxy_idle.pop(0)
+            ep.server_closed = True
+            ep.reader.feed_eof()        # the FIN reaches the idle client (nobody is reading: handed over directly)
+            return True
+        return False
 
     def uid(self, url):
         if url == self.target_url:
@@ -593,6 +611,41 @@ class HRun(CrawlRun):
         finally:
             pass
         net = self.net
+        if '--http-proxy' in self.argv:
+            # an HTTP proxy in front of the site: absolute-form requests; it closes its connection to the client after
+            # every answer WITHOUT announcing it (what a proxy does when its idle timeout is shorter than the client's
+            # pause between two requests)
+            run = self
+
+            class ProxyServer(SiteServer):
+                def on_data(self_, ep, data):
+                    run.proxy_eps.add(id(ep))
+                    if ep in run.proxy_idle:
+                        run.proxy_idle.remove(ep)
+                    # while this connection is busy the idle timeout of the other ones fires
+                    for other in list(run.proxy_idle):
+                        run.proxy_idle.remove(other)
+                        other.server_closed = True
+                        other.reader.feed_eof()
+                    data = re.sub(rb'^(\w+) http://[^/ ]+(/\S*) (HTTP/1\.[01])', rb'\1 \2 \3', data)
+                    SiteServer.on_data(self_, ep, data)
+            self.proxy_eps = set()
+            self.proxy_idle = []
+            import functools
+            import wpull.application.tasks.network as wnet
+            from wpull.proxy.client import HTTPProxyConnectionPool
+
+            class FakeProxyPool(HTTPProxyConnectionPool):
+                # the application installs the proxy pool by name: give it the connections of the in-memory network
+                def __init__(self_, *a, connection_factory=None, ssl_connection_factory=None, **kw):
+                    kws = dict(getattr(connection_factory, 'keywords', {}) or {})
+                    kws.pop('bind_host', None)
+                    kws.pop('bandwidth_limiter', None)
+                    cf = functools.partial(net.connection_factory, **kws)
+                    HTTPProxyConnectionPool.__init__(self_, *a, connection_factory=cf, ssl_connection_factory=cf, **kw)
+            self.patch.set(wnet, 'HTTPProxyConnectionPool', FakeProxyPool)
+            net.add_host('proxy.test', PROXY_IP)
+            net.listen(PROXY_IP, 3128, lambda ep: ProxyServer(run, ep))
         if self.ftp is not None:
             net.add_host('f.test', F_IP)
             sc = self.ftp_script = FtpScript(self, **self.ftp)
